@@ -28,10 +28,44 @@ pub fn cfg_full(n: u8, full: bool, ss: (u8, u8), m: MC, t: TC, p: CP) -> YuvConf
     }
 }
 
-/// A `len x 1` 4:4:4 image from three code slices (`Plane::from_slice`, stride = len).
+/// Image shape for a batch of `len` independent pixels. Batches are not always `len x 1` rows:
+/// short batches become single columns or two-column images, long ones get 2, 3, 5 or 7 rows when
+/// the length allows, so that per-row / per-column code paths (row offsets, "same chroma position
+/// as the previous pixel" shortcuts, one-sample-wide planes) are exercised by every batch check.
+pub fn shape_of(len: usize) -> (usize, usize) {
+    if len <= 1 {
+        return (len.max(1), 1);
+    }
+    if len <= 11 {
+        return match len % 3 {
+            0 => (1, len),
+            1 => (len, 1),
+            _ => {
+                if len % 2 == 0 {
+                    (2, len / 2)
+                } else {
+                    (1, len)
+                }
+            }
+        };
+    }
+    for h in [7usize, 5, 3, 2] {
+        if len % h == 0 && (len / h) % 2 == 1 {
+            return (len / h, h);
+        }
+    }
+    for h in [3usize, 2, 5, 7] {
+        if len % h == 0 {
+            return (len / h, h);
+        }
+    }
+    (len, 1)
+}
+
+/// A 4:4:4 image of shape [`shape_of`]`(len)` from three code slices (`Plane::from_slice`, stride = width).
 pub fn yuv444_row<T: Pixel>(y: &[u16], u: &[u16], v: &[u16], cfg: YuvConfig) -> Yuv<T> {
     let conv = |s: &[u16]| -> Vec<T> { s.iter().map(|&c| T::cast_from(c)).collect() };
-    let n = y.len();
+    let n = shape_of(y.len()).0;
     let frame = Frame {
         planes: [
             Plane::from_slice(&conv(y), n),
